@@ -73,7 +73,7 @@ Definition observe (applied : bool) (s : cstate) (o : list out) : obs :=
         (N.of_nat (length (filter is_isclosed o)))
         (st s) (now s) (sort_times (map te_time (timers s)))
         [closedByMe s; failedByMe s; droppedByMe s; wasClean s; wasOpenTO s; wasCloseTO s; wasDropTO s;
-         isSome (pingPending s); proxyPending s]
+         isSome (pingPending s); proxyPending s && wstate_eqb (st s) CONNECTING]
         (ncr s) (localCode s) (remoteCode s) (pingSeq s).
 
 Definition obs_eqb (a b : obs) : bool :=
